@@ -72,7 +72,7 @@ PROPS = {
  },
  'C03': {'runs': bridge('C03'), 'monitor_props': ['C03'], 'rule': BRIDGE_RULE, 'assumptions': SYMBOLIC + ['bitcoin transaction parsing is btcd (trusted dependency): the harness passes the strictly parsed outputs to the model', 'hash160 and the taproot tweak are data supplied by the harness (computed with the real libraries)']},
  'C05': {'runs': bridge('C05'), 'monitor_props': ['C05'], 'rule': BRIDGE_RULE, 'assumptions': SYMBOLIC + ['withdrawal ids in execution-layer requests are fresh (assigned by the bridge contract counter)', 'fee-rate test modelled exactly (fee > price*len); equals the float64 test for values below 2^53'],
-         'partial': 'exactly-one-notice (paid / refund lists) is checked by the implementation-side monitor and the terminality theorem; the NoDup statement over the ghost notice lists is not yet a Coq theorem'},
+         'partial': ''},
  'C06': {'runs': runs([{'family': 'bridge', 'n': 160, 'shards': 16, 'param': 'proj=C06,ops=45'}, {'family': 'locking', 'n': 160, 'shards': 16, 'param': 'proj=C15,blocks=14', 'tag': '1'}],
                       [{'family': 'bridge', 'n': 4000, 'shards': 64, 'param': 'proj=C06,ops=70'}, {'family': 'locking', 'n': 3000, 'shards': 64, 'param': 'proj=C15,blocks=24', 'tag': '1'}]),
          'monitor_props': ['C06'], 'rule': BRIDGE_RULE + ' ; ' + LOCKING_RULE,
